@@ -17,6 +17,19 @@ CHECKS = {
    "model-based property testing (tag-dense op histories vs reference model, shrinking)",
    "Same interpreter as C01 with 0-5 tags per commit placed on first/last/wrap-adjacent samples; the full tag list of every read window is compared with the model after every op.",
    "tags obey the documented contract pos<n; Float tag values finite", "DESIGN.md §5 C02"),
+
+ "C08": ("E2 drip-feed driver", "exploration",
+   "metamorphic property testing (drip-fed run vs one-shot twin, proptest schedules, shrinking)",
+   "Every catalogue block (47 specs over the 26 anchored files) is driven with generated feed/free/work schedules on 1-4 page streams, including stingy drain phases that keep the output nearly full, and its accumulated output is required to be bit-identical to a one-shot twin on 4 MB streams; any panic in work() is a violation.",
+   "capacity >= 2x the block's contiguous unit; bit-stream blocks get {0,1}; integer blocks get non-overflowing values", "DESIGN.md §5 C08"),
+ "C09": ("E2 drip-feed driver", "exploration",
+   "property testing with a per-call verdict oracle (handle counts, wait probing, spin detection, retirement)",
+   "On every work() call of generated drip schedules (all catalogue blocks plus sources/sinks): no stream refusal, exactly two handles per open stream afterwards, no idle wait on an already satisfied stream, providing exactly what was asked leads to progress, no 6x idle Again, retirement after inputs end.",
+   "activity = change of buffered counts on harness-owned ends; requests above capacity not probed; WaitForFunc not executed", "DESIGN.md §5 C09"),
+ "C12": ("E2 drip-feed driver", "exploration",
+   "property testing with index-valued tags (expected tag sequence per block rule vs observed, under drip schedules)",
+   "Harness tags whose value is their absolute index are attached every k-th input sample; the sequence of tags on each output must equal the expected one (same index / +delay / -skip / div decimation; first input only), so loss, duplication, misplacement and reordering are all visible; block-added tags are compared with the reference models.",
+   "filters with group delay are held to the index rule their code documents; at most ~600 tags per port", "DESIGN.md §5 C12"),
 }
 
 NOT_YET = {}
@@ -56,6 +69,11 @@ def main():
         "engines": [
             {"name": "E1 ring model", "path": "harness/src/ring.rs", "serves_properties": ["C01", "C02", "C18"],
              "kind_free_text": "proptest op-history generator + reference queue/tag model + interpreter"},
+            {"name": "E2 drip-feed driver", "path": "harness/src/drip.rs, harness/src/catalog.rs, harness/src/dripcase.rs",
+             "serves_properties": ["C08", "C09", "C10", "C12", "C13", "C16", "C19"],
+             "kind_free_text": "plays both neighbours of one block on small streams; generated feed/free/work schedules; per-call observations"},
+            {"name": "E3 reference models", "path": "harness/src/refmodel.rs", "serves_properties": ["C10", "C11", "C13", "C14", "C20"],
+             "kind_free_text": "independent executable specifications (bitwise CRC, HDLC framer, resampler index map, LFSR, DFT, ...)"},
         ],
         "checks": checks,
         "not_applicable": na,
